@@ -40,6 +40,7 @@ pub type CelValueMap = HashMap<String, CelValue>;
 pub enum CelValue {
     Int(i64),
     UInt(u64),
+    #[serde(with = "float_repr")]
     Float(f64),
     Bool(bool),
     String(String),
@@ -74,6 +75,68 @@ pub enum CelValue {
     },
     #[serde(skip_serializing, skip_deserializing)]
     Dyn(Arc<dyn CelValueDyn>),
+}
+
+/// An f64 that survives human-readable formats. JSON has no spelling for NaN
+/// and the infinities (serde_json writes `null`, which does not read back as
+/// a number), so there they are written as strings; binary formats keep the
+/// plain f64.
+mod float_repr {
+    use serde::{de, Deserializer, Serializer};
+    use std::fmt;
+
+    pub fn serialize<S: Serializer>(val: &f64, serializer: S) -> Result<S::Ok, S::Error> {
+        if serializer.is_human_readable() && !val.is_finite() {
+            serializer.serialize_str(if val.is_nan() {
+                "NaN"
+            } else if *val > 0.0 {
+                "inf"
+            } else {
+                "-inf"
+            })
+        } else {
+            serializer.serialize_f64(*val)
+        }
+    }
+
+    struct FloatVisitor;
+
+    impl<'de> de::Visitor<'de> for FloatVisitor {
+        type Value = f64;
+
+        fn expecting(&self, f: &mut fmt::Formatter) -> fmt::Result {
+            write!(f, "a number or one of \"NaN\", \"inf\", \"-inf\"")
+        }
+
+        fn visit_f64<E: de::Error>(self, v: f64) -> Result<f64, E> {
+            Ok(v)
+        }
+
+        fn visit_i64<E: de::Error>(self, v: i64) -> Result<f64, E> {
+            Ok(v as f64)
+        }
+
+        fn visit_u64<E: de::Error>(self, v: u64) -> Result<f64, E> {
+            Ok(v as f64)
+        }
+
+        fn visit_str<E: de::Error>(self, v: &str) -> Result<f64, E> {
+            match v {
+                "NaN" => Ok(f64::NAN),
+                "inf" => Ok(f64::INFINITY),
+                "-inf" => Ok(f64::NEG_INFINITY),
+                _ => Err(E::invalid_value(de::Unexpected::Str(v), &self)),
+            }
+        }
+    }
+
+    pub fn deserialize<'de, D: Deserializer<'de>>(deserializer: D) -> Result<f64, D::Error> {
+        if deserializer.is_human_readable() {
+            deserializer.deserialize_any(FloatVisitor)
+        } else {
+            deserializer.deserialize_f64(FloatVisitor)
+        }
+    }
 }
 
 impl CelValue {
